@@ -135,6 +135,42 @@ def run(ctx):
             rep.ok('G4', name, 'magnitude classes of the arguments (%d x %d binades from 2^-1074 to 2^1023): no class yields NaN, inf or a value above 1 '
                    '(%d classes decided, overflow / underflow of intermediate results included)' % (len(EXPS), len(EXPS), decided), loc=loc,
                    sample={'fn': name, 'classes': len(EXPS) ** 2, 'decided': decided})
+    # ---------------- G5 the low-pass step stays finite: "within the range of the values fed so far" for ALL finite inputs
+    import itertools
+    import dwarf
+    fn = ctx.fn('hdr_unit', 'a_lpf_iter')
+    if fn is None:
+        rep.unk('G5', 'a_lpf_iter', 'anchor vanished')
+    else:
+        loc = fn.loc(fn.entry.instrs[0])
+        try:
+            mem_ = dwarf.MD(hdr).structs().get('a_lpf', {}).get('members', [])
+            idx = {m_['name']: k for k, m_ in enumerate(mem_)}
+        except Exception:
+            idx = {}
+        E5 = (-1074, -600, 0, 600, 1023) if ctx.tier != 'thorough' else (-1074, -1022, -600, -60, 0, 60, 600, 1000, 1022, 1023)
+        vals = [mag.binade(e, s_) for e in E5 for s_ in (1, -1)] + [mag.Z]
+        alphas = [mag.Z] + [mag.binade(e) for e in (-1074, -600, -60, -2, -1)]
+        if 'alpha' not in idx or 'output' not in idx or len(fn.params) != 2 or \
+           mag.run(fn, [('ptr', 'ctx'), mag.binade(0)], None, 0, {('ctx', idx['alpha']): mag.binade(-1), ('ctx', idx['output']): mag.binade(0)}) is None:
+            rep.unk('G5', 'a_lpf_iter', 'not straight-line arithmetic over the filter object and the input', loc=loc)
+        else:
+            worst, total, decided = [], 0, 0
+            for al, o, x in itertools.product(alphas, vals, vals):
+                mem = {('ctx', idx['alpha']): al, ('ctx', idx['output']): o}
+                r = mag.run(fn, [('ptr', 'ctx'), x], None, 0, mem)
+                got = mem[('ctx', idx['output'])]
+                total += 1
+                decided += got != mag.TOP
+                if got == mag.NAN or got[0] == 'inf' or (r is not True and (r == mag.NAN or r[0] == 'inf')):
+                    worst.append((al, o, x, got))
+            if worst:
+                al, o, x, got = worst[0]
+                rep.bad('G5', 'a_lpf_iter', 'for every %s, %s and %s the new output is %s although every value fed so far is finite (%d of %d sign / magnitude classes)' % (
+                    mag.show_class('alpha', al), mag.show_class('output', o), mag.show_class('x', x), mag.show(got), len(worst), total), loc=loc, key='a_lpf_iter: saturation')
+            else:
+                rep.ok('G5', 'a_lpf_iter', 'no sign / magnitude class of (alpha in [0,1], output, x) yields NaN or an infinity (%d classes, %d decided)' % (total, decided),
+                       loc=loc, sample={'classes': total, 'decided': decided})
     try:
         ll = irx.compile_ir(ctx.scr, probe, ctx.cfg('all', 8), 'probe16')
         pm = llir.parse_module(ll)
@@ -157,6 +193,7 @@ def run(ctx):
     tf(ctx)
     rep.floor('G3', 6)
     rep.floor('G4', 2)
+    rep.floor('G5', 1)
     rep.floor('G2', 8)
     rep.floor('G1', 7)
 
